@@ -27,6 +27,7 @@ class Stmt:
     run_args: List[str] = field(default_factory=list)
     target: str = ""  # assignment target (lower-case base identifier)
     inline: Optional["Stmt"] = None  # statement after THEN on the same physical statement
+    label: str = ""  # numeric line label in front of the statement
 
 
 @dataclass
@@ -149,9 +150,13 @@ class B09Lib:
                 if not part:
                     continue
                 ml = _LABEL.match(part)
+                lab = ""
                 if ml:
+                    lab = ml.group(1)
                     part = ml.group(2)
-                p.stmts.append(self._stmt(part, ln))
+                st_ = self._stmt(part, ln)
+                st_.label = lab
+                p.stmts.append(st_)
 
     def _stmt(self, text: str, ln: int) -> Stmt:
         low = text.lower()
